@@ -147,7 +147,34 @@ func NewSchema(config SchemaConfig) (Schema, error) {
 		schema.extensions = config.Extensions
 	}
 
+	schema.rebuildPossibleTypeMap()
+
 	return schema, nil
+}
+
+// rebuildPossibleTypeMap computes the possible-type table of every abstract
+// type of the schema. It is built when the schema is constructed or extended,
+// never lazily at request time: the table is shared by every copy of the Schema
+// value, so filling it on first use was a data race between concurrent requests.
+func (gq *Schema) rebuildPossibleTypeMap() {
+	possibleTypeMap := map[string]map[string]bool{}
+	for _, ttype := range gq.typeMap {
+		var abstractType Abstract
+		switch ttype := ttype.(type) {
+		case *Interface:
+			abstractType = ttype
+		case *Union:
+			abstractType = ttype
+		default:
+			continue
+		}
+		typeMap := map[string]bool{}
+		for _, possibleType := range gq.PossibleTypes(abstractType) {
+			typeMap[possibleType.Name()] = true
+		}
+		possibleTypeMap[abstractType.Name()] = typeMap
+	}
+	gq.possibleTypeMap = possibleTypeMap
 }
 
 //Added Check implementation of interfaces at runtime..
@@ -182,6 +209,8 @@ func (gq *Schema) AddImplementation() error {
 			}
 		}
 	}
+
+	gq.rebuildPossibleTypeMap()
 
 	return nil
 }
@@ -246,23 +275,15 @@ func (gq *Schema) PossibleTypes(abstractType Abstract) []*Object {
 	return []*Object{}
 }
 func (gq *Schema) IsPossibleType(abstractType Abstract, possibleType *Object) bool {
-	possibleTypeMap := gq.possibleTypeMap
-	if possibleTypeMap == nil {
-		possibleTypeMap = map[string]map[string]bool{}
+	if typeMap, ok := gq.possibleTypeMap[abstractType.Name()]; ok {
+		return typeMap[possibleType.Name()]
 	}
-
-	if typeMap, ok := possibleTypeMap[abstractType.Name()]; !ok {
-		typeMap = map[string]bool{}
-		for _, possibleType := range gq.PossibleTypes(abstractType) {
-			typeMap[possibleType.Name()] = true
+	// An abstract type outside the schema's type map (or a schema still under
+	// construction): answer without caching.
+	for _, candidate := range gq.PossibleTypes(abstractType) {
+		if candidate.Name() == possibleType.Name() {
+			return true
 		}
-		possibleTypeMap[abstractType.Name()] = typeMap
-	}
-
-	gq.possibleTypeMap = possibleTypeMap
-	if typeMap, ok := possibleTypeMap[abstractType.Name()]; ok {
-		isPossible, _ := typeMap[possibleType.Name()]
-		return isPossible
 	}
 	return false
 }
